@@ -159,6 +159,19 @@ func Eval(t *Term, env map[string]Val, memo map[int]Val) (Val, bool) {
 		} else {
 			r.F = f32(float64(args[0].I))
 		}
+	case "uf":
+		// libm heads are evaluated by Go's own math package: this is what the
+		// native build computes for the same argument
+		if f, has := Math1[t.Name]; has && len(t.Args) == 1 {
+			r.F = f(args[0].F)
+		} else if f, has := Math2[t.Name]; has && len(t.Args) == 2 {
+			r.F = f(args[0].F, args[1].F)
+		} else if t.Name == "math.LgammaSign" {
+			_, sg := math.Lgamma(args[0].F)
+			r.I = uint64(int64(sg))
+		} else {
+			ok = false
+		}
 	default:
 		ok = false
 	}
@@ -169,4 +182,17 @@ func Eval(t *Term, env map[string]Val, memo map[int]Val) (Val, bool) {
 		memo[t.ID] = r
 	}
 	return r, true
+}
+
+var Math1 = map[string]func(float64) float64{
+	"math.Exp": math.Exp, "math.Expm1": math.Expm1, "math.Log": math.Log, "math.Log1p": math.Log1p, "math.Log2": math.Log2,
+	"math.Log10": math.Log10, "math.Sin": math.Sin, "math.Cos": math.Cos, "math.Tan": math.Tan, "math.Sinh": math.Sinh,
+	"math.Cosh": math.Cosh, "math.Tanh": math.Tanh, "math.Erf": math.Erf, "math.Erfc": math.Erfc, "math.Gamma": math.Gamma,
+	"math.Floor": math.Floor, "math.Ceil": math.Ceil, "math.Trunc": math.Trunc, "math.Round": math.Round, "math.Atan": math.Atan,
+	"math.Asin": math.Asin, "math.Acos": math.Acos, "math.Cbrt": math.Cbrt, "math.Erfinv": math.Erfinv,
+	"math.Lgamma": func(x float64) float64 { v, _ := math.Lgamma(x); return v },
+}
+
+var Math2 = map[string]func(a, b float64) float64{
+	"math.Pow": math.Pow, "math.Mod": math.Mod, "math.Atan2": math.Atan2, "math.Hypot": math.Hypot, "math.Nextafter": math.Nextafter,
 }
